@@ -9,6 +9,7 @@ import hashlib
 
 from trie.exceptions import FullDirectionalVisibility, PerfectVisibility
 from trie.fog import HexaryTrieFog
+from trie.typing import Nibbles
 
 from ..core import HarnessError, Violation, deep
 from .c09 import fog_members
@@ -171,7 +172,12 @@ class World:
         elif any(a != b and b[: len(a)] == a for a in segs for b in segs):
             why = "nested-segments"
         what = f"explore({prefix}, {segs}) on replica {r}"
-        ok = self.apply(rep, lambda fog: fog.explore(prefix, segs), why is None, why, what)
+        # the same sequences as tuples, lists or Nibbles (rotating; all are legal inputs)
+        form = self.ev % 3
+        conv = (tuple, list, Nibbles)[form]
+        a_prefix = conv(prefix)
+        a_segs = (tuple if form == 1 else list)(conv(s) for s in segs)
+        ok = self.apply(rep, lambda fog: fog.explore(a_prefix, a_segs), why is None, why, what)
         tag = cmd.get("why")
         if tag == "dup":
             self.st.fault("resp-dup")
@@ -242,9 +248,10 @@ class World:
         right = [m for m in members if m > key]
         left = [m for m in members if m < key and key[: len(m)] != m]
         fn = rep.fog.nearest_right if kind == "right" else rep.fog.nearest_unknown
+        key_arg = (tuple, list, Nibbles)[self.ev % 3](key)
         oracle = "nearest-right" if kind == "right" else "nearest-unknown"
         try:
-            got = fn(key)
+            got = fn(key_arg)
             status = "ok"
         except (PerfectVisibility, FullDirectionalVisibility) as e:
             status, got = type(e).__name__, e
